@@ -176,6 +176,16 @@ def parseFloat (b : Bytes) : FloatRes :=
       | .invalid => .invalid
       | .unknown => .outOfDomain
 
+/-- `strings.ToLower` of an `Enum` argument. ASCII bytes are lowered byte by byte. A text with a byte
+≥ 0x80 is lowered by rune; the only non-ASCII rune whose lower case is ASCII is the Kelvin sign (→ `k`),
+so such a text can equal an allowed value only if one of them contains `k`: then the model makes no
+claim (`none`), otherwise the argument matches nothing (it is returned unchanged, which no ASCII value
+equals). -/
+def enumLower (allowed : List String) (a : Bytes) : Option Bytes :=
+  if a.all (· < 128) then some (a.map lowerAscii)
+  else if allowed.any (fun s => (asciiBytes s).contains 107) then none
+  else some a
+
 /-! ### the combinators -/
 
 inductive PErr where
@@ -240,13 +250,16 @@ def runP : P → List Bytes → Env → Step
       | .invalid => .fail .invalidFloat
       | .outOfDomain => .outOfDomain
       | .ok f => .ret true r (setSlot env slot (.float f))
-  -- `Enum`: `slices.Contains(allowed, val)`, exact comparison
+  -- `Enum`: `val := strings.ToLower(arg)`, `slices.Contains(allowed, val)`; the LOWERED value is stored
   | .enum slot allowed, args, env =>
     match args with
     | [] => .ret false args env
     | a :: r =>
-      if allowed.any (fun s => asciiBytes s == a) then .ret true r (setSlot env slot (.bytes a))
-      else .fail .syntaxError
+      match enumLower allowed a with
+      | none => .outOfDomain
+      | some l =>
+        if allowed.any (fun s => asciiBytes s == l) then .ret true r (setSlot env slot (.bytes l))
+        else .fail .syntaxError
   -- `Strings`, `Anys`: everything that is left
   | .strings slot, args, env =>
     match args with
